@@ -349,3 +349,37 @@ Proof.
          (mkfs (files_of [(0, false, 10); (1, false, 11); (2, false, 12)]%N) NoLog), [0; 1; 2]%N.
   vm_compute. repeat split; discriminate.
 Qed.
+
+(* ---- (5) a log that could not be written / synced is removed: nothing is left of the failed replacement ---- *)
+Lemma replace_exec_c_nothing v inuse fails i0 old new st live :
+  logs st = NoLog -> fails i0 = false -> fails (S i0) || fails (S (S i0)) = true ->
+  r_fs (replace_exec_c true v inuse fails i0 old new st live) = st /\
+  r_live (replace_exec_c true v inuse fails i0 old new st live) = live.
+Proof.
+  intros Hl H0 H12. unfold replace_exec_c. rewrite H0, H12. cbn [andb negb r_fs r_live run_step files logs].
+  split; [|reflexivity]. destruct st as [f l]. cbn in Hl. subst l. reflexivity.
+Qed.
+
+Lemma fault_restart_atomic_c cleanup v inuse fails i0 st0 old new univ live cr :
+  protocol_pre st0 old new univ -> logs st0 = NoLog ->
+  let st' := recover_with_crashes univ cr (r_fs (replace_exec_c cleanup v inuse fails i0 old new st0 live)) in
+  ((forall n, visible st' n = view_old st0 n) \/ (forall n, visible st' n = view_new st0 old new n)) /\
+  (forall n, files st' (n, true) = None) /\ notfull st' /\ recover univ st' = st'.
+Proof.
+  intros Hp Hl. unfold replace_exec_c.
+  destruct (cleanup && negb (fails i0) && (fails (S i0) || fails (S (S i0)))) eqn:E.
+  - cbn [r_fs run_step files logs].
+    replace (mkfs (files st0) NoLog) with (run (firstn 0 (logA old new ++ (map rename_new new ++ map (del_old inuse) old) ++ [LogRemove])) st0)
+      by (destruct st0 as [f l]; cbn in Hl; subst l; reflexivity).
+    exact (crash_atomic_all st0 old new univ Hp _ 0 cr (canonical_body_ok inuse old new)).
+  - apply fault_restart_atomic. exact Hp.
+Qed.
+
+(* today: after a failed sync the COMPLETE log stays although the replacement was given up *)
+Lemma stale_log_current :
+  exists inuse fails old new st live,
+    let r := replace_exec Current inuse fails 0 old new st live in
+    r_err r = true /\ r_live r = live /\ logs (r_fs r) = FullLog old new.
+Proof.
+  exists (fun _ => false), (fun i => Nat.eqb i 2), [0; 1]%N, [2; 3]%N, ex_fs, [0; 1; 7]%N. vm_compute. repeat split.
+Qed.
